@@ -149,7 +149,8 @@ func runC16(c *core.Ctx) {
 				}
 				switch x := v.(type) {
 				case *ssa.Parameter:
-					return strings.Contains(strings.ToLower(x.Name()), "replica")
+					// the replica id is the last parameter of node.Selector.Pick(group, name, shardID, replicaID)
+					return len(f.Params) > 0 && x == f.Params[len(f.Params)-1]
 				case *ssa.Convert:
 					return inj(x.X, d+1)
 				case *ssa.ChangeType:
